@@ -223,6 +223,18 @@ func opValue(tag, i int, op memOp) expr.Expr {
 		return expr.NewRegLoad(expr.Key(fmt.Sprintf("s%d", (tag+i)%10)), expr.Width(op.W))
 	case "symwide":
 		return expr.NewRegLoad(expr.Key(fmt.Sprintf("s%d", (tag+i)%10)), 8)
+	case "zero":
+		return expr.NewConst(make([]byte, op.W), expr.Width(op.W)) // an all-zero constant
+	case "lowzero":
+		// low half zero, high half non-zero: "is it zero" judged on the low bytes only is wrong
+		bs := make([]byte, op.W)
+		for j := op.W / 2; j < op.W; j++ {
+			bs[j] = byte((tag+i+1)<<4 | (j%15 + 1))
+		}
+		if op.W == 1 {
+			bs[0] = 0
+		}
+		return expr.NewConst(bs, expr.Width(op.W))
 	case "gadgetnarrow":
 		// a narrowing width gadget on top: the low W-1 bytes of an 8-byte register; a store of
 		// W bytes zero-extends it, so the register's upper bytes must not come back
@@ -732,10 +744,10 @@ func memDo(r *eng.Run, c memCase) {
 func init() {
 	checks["C14"] = eng.Check{
 		Hist:        true,
-		Rule:        "Sparse memory: every history (no state merging) of <=2 stores over the full alphabet (addr 0..5 x width 1..4 x value kinds {exact constant, symbolic register, value narrower than the write, value wider than the write, wide symbolic, a narrowing width gadget over a wide register, a binary expression}) and of 3 stores (quick: addr 0..4, widths 1..4, kinds const/sym; thorough: full alphabet; thorough also 4 stores over addr 0..3, widths 1..3, const/sym; plus histories of 2..3 stores ending with a store of exactly the bytes the memory already holds there), on a fresh real Sparse each; after each history every Load(a,w), Missing(a,w) for a in 0..8, w in 1..4 and Blocks() compared with a byte map (values under 3 valuations); digests of all values handed in / returned mid-history re-checked at the end. Between the stores of a history the memory is read as well (Load and Missing at the narrowest and widest width from every address, Blocks()), so that anything cached by a read has to survive the next store; histories of 2 stores are additionally run with no reads between the stores and with no reads before the end; wide loads (every width 1..72) over three layouts of many blocks. Repeated with all addresses shifted to just below 2^64 (the 2-store histories with an additional block near address 0, i.e. blocks in both halves of the address space); single Load / Missing / Store calls on the ranges of 1, 2 and 4 bytes that end exactly at 2^64. Non-trivial = history of >=2 stores.",
+		Rule:        "Sparse memory: every history (no state merging) of <=2 stores over the full alphabet (addr 0..5 x width 1..4 x value kinds {exact constant, symbolic register, value narrower than the write, value wider than the write, wide symbolic, a narrowing width gadget over a wide register, a binary expression, an all-zero constant}) and of 3 stores (quick: addr 0..4, widths 1..4, kinds const/sym; thorough: full alphabet; thorough also 4 stores over addr 0..3, widths 1..3, const/sym; plus histories of 2..3 stores ending with a store of exactly the bytes the memory already holds there), on a fresh real Sparse each; after each history every Load(a,w), Missing(a,w) for a in 0..8, w in 1..4 and Blocks() compared with a byte map (values under 3 valuations); digests of all values handed in / returned mid-history re-checked at the end. Between the stores of a history the memory is read as well (Load and Missing at the narrowest and widest width from every address, Blocks()), so that anything cached by a read has to survive the next store; histories of 2 stores are additionally run with no reads between the stores and with no reads before the end; wide loads (every width 1..72) over five layouts of many blocks (incl. zero constants and constants whose low half is zero). Repeated with all addresses shifted to just below 2^64 (the 2-store histories with an additional block near address 0, i.e. blocks in both halves of the address space); single Load / Missing / Store calls on the ranges of 1, 2 and 4 bytes that end exactly at 2^64. Non-trivial = history of >=2 stores.",
 		Assumptions: []string{"address ranges do not wrap around 2^64", "write widths 1..4 (wider writes are covered by a few hand-picked wide cases only)"},
 		Run: func(r *eng.Run) {
-			full := memAlpha(seq(0, 5), seq(1, 4), []string{"const", "sym", "narrow", "wide", "symwide", "gadgetnarrow", "binsym"})
+			full := memAlpha(seq(0, 5), seq(1, 4), []string{"const", "sym", "narrow", "wide", "symwide", "gadgetnarrow", "binsym", "zero"})
 			small := memAlpha(seq(0, 4), seq(1, 4), []string{"const", "sym"})
 			same := memAlpha(seq(0, 4), seq(1, 4), []string{"const", "sym", "samecopy"})
 			tiny := memAlpha(seq(0, 3), seq(1, 3), []string{"const", "sym"})
@@ -790,6 +802,9 @@ func init() {
 				{{0, 8, "const"}, {8, 8, "sym"}, {16, 16, "const"}, {32, 4, "const"}, {36, 2, "sym"}, {38, 1, "const"}, {39, 8, "const"}},
 				{{0, 1, "const"}, {1, 33, "const"}, {34, 8, "sym"}, {42, 30, "const"}},
 				{{0, 40, "narrow"}, {33, 2, "const"}, {64, 8, "const"}, {40, 24, "sym"}},
+				// blocks holding zero constants and constants whose low half is zero, not first in the read
+				{{0, 4, "const"}, {4, 16, "lowzero"}, {20, 8, "zero"}, {28, 20, "lowzero"}, {48, 4, "const"}},
+				{{0, 2, "zero"}, {2, 18, "lowzero"}, {20, 17, "lowzero"}, {37, 1, "const"}},
 			} {
 				memDo(r, memCase{Mem: "sparse", Ops: lay, MaxA: 3, MaxW: 72})
 				memDo(r, memCase{Mem: "overlay", Base: "bytes", Blocks: []memBlock{{2, "b2b3b4"}, {35, "c5"}}, Ops: lay, MaxA: 3, MaxW: 72})
